@@ -1,8 +1,13 @@
 """C07 -- Bmad-X tracking agrees with the linear map to first order and is an exact flow.
 
-proof stage    : Props/C07.v (drift: sqrt_one, dz, straight line, flow, closed form, Jacobian entries; TDC at V=0)
+proof stage    : Props/C07.v (drift: sqrt_one, dz, straight line, flow, closed form, Jacobian entries; TDC at V=0;
+                 quadrupole: transverse block = linear map, exact flow incl. z, num_steps independence, on-axis = drift,
+                 offset round trip, R56)
 correspondence : Drift(tracking_method="bmadx").track on 1-3 paraxial particles (|delta| <= 0.05) vs the Coq model
-                 drift_bmadx_track via `interval` (x, y, tau of every particle, returned energy)
+                 drift_bmadx_track via `interval` (x, y, tau of every particle, returned energy);
+                 Quadrupole(tracking_method="bmadx").track (k1 of both signs and 0, tilt, misalignment, num_steps 1/2/5,
+                 both branches of low_energy_z_correction) vs the Coq model Bmadx/QuadX.v quad_bmadx_track: all six
+                 coordinates of every particle + returned energy, tactic Bmadx/QuadXTac.v (staged `interval`)
 oracles (implementation alone): autograd Jacobian at the design orbit vs transfer_map (Drift, Quadrupole, Dipole),
                  track(L1);track(L2) vs track(L1+L2) (Drift, Quadrupole incl. num_steps, Dipole), straight-line drift in
                  50-digit arithmetic, TDC(V=0) vs Drift(bmadx).
@@ -27,7 +32,12 @@ Open Scope R_scope."""
 TAC = ("unfold drift_bmadx_track, drift_bmadx_energy, to_cheetah, driftx, to_bmad; simpl; "
        "unfold bc_tau, bc_delta, bc_beta, bc_energy, bc_p, bc_refE, dr_z, dr_dz, dr_x, dr_y, dr_Pl, dr_Pxy2, dr_Px, dr_P, sqrt_one, "
        "cb_z, cb_pz, cb_beta, cb_p, cb_energy, cb_p0c, Rsqr; interval with (i_prec 90).")
+PRE_Q = """From Coq Require Import Reals Lra.
+From Interval Require Import Tactic.
+From Cheetah Require Import Bmadx.Coords Bmadx.DriftX Bmadx.Tdc Bmadx.QuadX Bmadx.QuadXProofs Bmadx.QuadXTac.
+Open Scope R_scope."""
 REL = 2.0 ** -40
+REL_Q = 2.0 ** -36
 T64 = torch.float64
 
 
@@ -204,10 +214,75 @@ def drift_goals(L, E0, parts, out, e_out):
     return gs
 
 
+# ------------------------------------------------------------------------------------------------ quadrupole correspondence
+def gen_qcase(rng, k):
+    """Quadrupole cases for the Coq correspondence: k1 of both signs, small and large, and exactly 0; tilt; misalignment; num_steps 1/2/5;
+    energy offsets 0, ~1e-3 (series branch of low_energy_z_correction with pz != 0) and up to 5e-2 (exact branch at low and medium energy)."""
+    L = round(rng.uniform(0.05, 1.5), 3)
+    k1 = [0.0, round(rng.uniform(0.5, 12), 3), -round(rng.uniform(0.5, 12), 3), round(rng.uniform(-1, 1), 3)][k % 4]
+    ns = [1, 2, 5][k % 3]
+    spec = {"cls": "Quadrupole", "kw": {"length": L, "k1": k1, "tilt": rng.choice([0.0, round(rng.uniform(-0.8, 0.8), 3), math.pi / 4]),
+                                        "misalignment": rng.choice([[0.0, 0.0], [round(rng.uniform(-1e-3, 1e-3), 6), round(rng.uniform(-1e-3, 1e-3), 6)]]),
+                                        "num_steps": ns}}
+    E0 = gen_energy(rng) if k % 2 else round(10 ** rng.uniform(6.3, 7.5), -3)     # every other case at a few MeV .. 30 MeV
+    parts = []
+    for _ in range(1 if ns == 5 else rng.randint(1, 2)):
+        p = gen_particle(rng)
+        p[5] = rng.choice([0.0, rng.choice([-1, 1]) * rng.uniform(1e-4, 2e-3), rng.uniform(-0.05, 0.05), rng.uniform(-0.05, 0.05)])
+        parts.append(p)
+    return {"spec": spec, "E0": E0, "particles": parts, "frac": round(rng.uniform(0.1, 0.9), 2)}
+
+
+def lez_branch(delta, E0):
+    """which branch of low_energy_z_correction the code takes for this particle (float64, as the code computes it): (series?, margin)"""
+    m = m_eV()
+    p0c = math.sqrt(E0 * E0 - m * m)
+    en = E0 + delta * p0c
+    pz = (math.sqrt(en * en - m * m) - p0c) / p0c
+    etot = math.sqrt(p0c * p0c + m * m)
+    ev = m * (p0c / etot * pz) ** 2
+    thr = 3e-7 * etot
+    return ev < thr, abs(ev / thr - 1.0)
+
+
+def quad_goals(case, out, e_out):
+    """one goal for the returned energy + one goal per particle: the six coordinates of Quadrupole._track_bmadx vs the Coq model.
+    Tolerance 2^-36 * cnd * (|observed| + scale): cnd = E0^2/(E0^2 - m^2) is the amplification of rounding errors by
+    p0c = sqrt(E0^2 - m^2); scale = the size of the terms that are added (2e-3 (1+L)(1+|k1| L) transverse, L for tau, 1 for delta);
+    float64 errors are ~1e-16 * scale * cosh(sqrt|k1| L) <= 1e-14 * scale, every seeded formula change is >= 1e-9 * scale."""
+    kw, E0, parts = case["spec"]["kw"], case["E0"], case["particles"]
+    m = m_eV()
+    L, k1, tilt, n = kw["length"], kw["k1"], kw["tilt"], kw["num_steps"]
+    ox, oy = kw.get("misalignment", [0.0, 0.0])
+    cnd = E0 * E0 / (E0 * E0 - m * m)
+    gs = [(f"Rabs (drift_bmadx_energy {dyadic(E0)} {dyadic(m)} - {dyadic(e_out)}) <= {dyadic(REL_Q * cnd * E0)}", TAC)]
+    st = 2e-3 * (1 + L) * (1 + abs(k1) * L)
+    fx, fy = ("true" if k1 >= 0 else "false"), ("true" if k1 <= 0 else "false")      # masks (-k <= 0), (k <= 0) with k = k1*L/(L*(1+pz)), 1+pz > 0
+    skipped = 0
+    for p, o in zip(parts, out):
+        ser, margin = lez_branch(p[5], E0)
+        if margin < 1e-6:        # on the edge of the branch condition: unspecified (the model uses the real 3e-7)
+            skipped += 1
+            continue
+        v = "(mkc " + " ".join(dyadic(c) for c in p[:6]) + ")"
+        cj = []
+        for acc, j, scale in (("cx", 0, st), ("cpx", 1, st), ("cy", 2, st), ("cpy", 3, st), ("ctau", 4, L), ("cdelta", 5, 1.0)):
+            cj.append(f"Rabs ({acc} o - {dyadic(o[j])}) <= {dyadic(REL_Q * cnd * (abs(o[j]) + scale))}")
+        stmt = (f"let o := quad_bmadx_track {n}%nat {dyadic(L)} {dyadic(k1)} {dyadic(ox)} {dyadic(oy)} {dyadic(tilt)} {dyadic(E0)} {dyadic(m)} {v} in "
+                + " /\\ ".join(cj))
+        gs.append((stmt, f"quadx_goal {fx} {fy} {'true' if ser else 'false'}."))
+    return gs, skipped
+
+
 # ------------------------------------------------------------------------------------------------ main
 def run_case(run, case):
     """all implementation-level oracles on one case; returns a failure dict or None"""
     spec, E0, parts = case["spec"], case["E0"], case["particles"]
+    if case.get("qcorr"):      # misaligned quadrupoles of the Coq correspondence: the design orbit is not the axis, no Jacobian comparison
+        out = make(spec).track(beam(parts, E0)).particles
+        if not bool(torch.isfinite(out).all()):
+            return {"what": "non-finite output of Quadrupole._track_bmadx", "observed": out.tolist()}
+        return flow_oracle(spec, E0, parts, case["frac"]) or onaxis_oracle(spec, E0, parts)
     f = jacobian_oracle(spec, E0)
     if f:
         return f
@@ -248,12 +323,17 @@ def main(tier, replay=None):
     thorough = tier == "thorough"
     run.cov["rule"] = ("Drift/Quadrupole/Dipole/TDC with tracking_method='bmadx': lengths 0.05..1.5 m, k1 in {0, +-1, +-12}, tilt {0, random, pi/4}, num_steps "
                        "{1,2,5}, bend angles +-(0.02..0.6) rad, edge angles, gap/fint (gap_exit=gap, fint_exit=fint); energies 1.6 MeV..5 GeV; 1-3 paraxial "
-                       "particles (|x|,|px| <= 2e-3, |delta| <= 0.05); NaN configurations of finding F8 (angle=0, length=0) are not generated; "
+                       "particles (|x|,|px| <= 2e-3, |delta| <= 0.05); quadrupoles of the Coq correspondence additionally misaligned (<= 1 mm), k1 in {0, +-(0.5..12), +-1}, "
+                       "num_steps cycling 1/2/5, delta in {0, +-(1e-4..2e-3), +-0.05} at 2 MeV..5 GeV so that both branches of low_energy_z_correction occur; NaN configurations of finding F8 (angle=0, length=0) are not generated; "
                        "non-trivial = every case (non-zero length, off-axis particles); distinct by full input")
     if replay:
         return do_replay(run, replay)
     proof_ok = run.proof_stage()
     if not proof_ok:
+        run.notes.append(run.proof_problem)
+    ok_tac, log_tac = common.coq_build("theories/Bmadx/QuadXTac.vo")     # the tactic library of the quadrupole goals (imports Interval; not needed by Props/C07.v)
+    if not ok_tac and proof_ok:
+        proof_ok, run.proof_problem = False, f"coq build of Bmadx/QuadXTac.v failed: {log_tac[-1200:]}"
         run.notes.append(run.proof_problem)
     n = 240 if thorough else 36
     goals, owner, cases, bad = [], [], [], []
@@ -284,9 +364,48 @@ def main(tier, replay=None):
             run.count("tdc_off_vs_drift")
             if f:
                 bad.append({"case": dict(case, tdc=True), "failure": f})
-    failing, errs = common.run_real_goals(PID, "drift", PRE, goals, shard=20)
-    run.cov["interval_goals"] = len(goals)
-    run.cov["tested_only"] = ["Quadrupole Bmad-X: Jacobian at the design orbit = transfer_map (1e-9), flow law and num_steps independence (1e-10) -- not modelled in Coq",
+    # ---- Bmad-X quadrupole vs the Coq model (all six coordinates), plus the implementation-level oracles on the same inputs
+    qgoals, qowner, n_edge = [], [], 0
+    for k in range(80 if thorough else 12):
+        qc = gen_qcase(run.rng, k)
+        qc["qcorr"] = True
+        run.add_case(qc, True)
+        run.count("quad_correspondence")
+        kw = qc["spec"]["kw"]
+        run.count("quadc_k1_" + ("zero" if kw["k1"] == 0 else "pos" if kw["k1"] > 0 else "neg"))
+        run.count(f"quadc_num_steps_{kw['num_steps']}")
+        run.count("quadc_tilted" if kw["tilt"] != 0 else "quadc_untilted")
+        run.count("quadc_misaligned" if kw["misalignment"] != [0.0, 0.0] else "quadc_aligned")
+        try:
+            f = run_case(run, qc)
+            o = make(qc["spec"]).track(beam(qc["particles"], qc["E0"]))
+            out, e_out = o.particles.tolist(), float(o.energy)
+        except Exception as ex:  # an exception of the tracking code on a valid input is an observation: the model predicts finite values
+            f, out = {"what": "exception: " + repr(ex)[:300]}, None
+        if f:
+            bad.append({"case": qc, "failure": f})
+        if out is None or not all(math.isfinite(c) for row in out for c in row) or not math.isfinite(e_out):
+            continue
+        for p in qc["particles"]:
+            run.count("quadc_lez_series" if lez_branch(p[5], qc["E0"])[0] else "quadc_lez_exact")
+        gs, skipped = quad_goals(qc, out, e_out)
+        n_edge += skipped
+        qgoals += gs
+        qowner += [dict(qc, observed=out, observed_energy=e_out)] * len(gs)
+        run.cov["traces_validated_against_impl"] += 1
+        if k < 4:
+            run.sample({"case": qc, "observed": out})
+    from concurrent.futures import ThreadPoolExecutor
+    with ThreadPoolExecutor(max_workers=2) as ex:
+        fut_d = ex.submit(common.run_real_goals, PID, "drift", PRE, goals, 20)
+        fut_q = ex.submit(common.run_real_goals, PID, "quad", PRE_Q, qgoals, max(2, -(-len(qgoals) // 16)))
+        failing, errs = fut_d.result()
+        qfailing, qerrs = fut_q.result()
+    run.cov["interval_goals"] = len(goals) + len(qgoals)
+    run.cov["quad_goals"] = len(qgoals)
+    run.cov["quad_particles_on_branch_edge_skipped"] = n_edge
+    run.cov["tested_only"] = ["Quadrupole Bmad-X with the coded eps = 2^-52: flow law / num_steps independence (1e-10) and full 6x6 Jacobian = transfer_map (1e-9) on the "
+                              "implementation (Coq proves them for eps := 0, the transverse block, R56 and the determinant defect eps*sx^2 of the coded block)",
                               "Dipole Bmad-X (fringe + body): Jacobian = transfer_map (1e-9), two pieces = whole (1e-10) -- not modelled in Coq",
                               "full 6x6 autograd Jacobian of Drift(bmadx) vs transfer_map (Coq proves the two non-trivial entries)",
                               "TDC(V=0) vs Drift(bmadx) on the implementation (Coq proves it for the model of the kick)"]
@@ -297,6 +416,10 @@ def main(tier, replay=None):
         i = failing[0]
         run.violation({"kind": "correspondence", "broken": "Coq model Bmadx/DriftX.v (drift_bmadx_track) disagrees with Drift._track_bmadx",
                        "case": cases[owner[i]], "goal": goals[i][0][:600], "coq_error": errs.get(i, "")[-300:], "n_failing_goals": len(failing)}, no_input=True)
+    elif qfailing:
+        i = qfailing[0]
+        run.violation({"kind": "correspondence", "broken": "Coq model Bmadx/QuadX.v (quad_bmadx_track) disagrees with Quadrupole._track_bmadx",
+                       "case": qowner[i], "goal": qgoals[i][0][:900], "coq_error": qerrs.get(i, "")[-300:], "n_failing_goals": len(qfailing)}, no_input=True)
     elif not proof_ok:
         run.violation({"kind": "proof", "broken": run.proof_problem}, no_input=True)
     return run.finish("proof")
